@@ -42,7 +42,22 @@ def run_logged(cmd, cwd, env, what, timeout=3600):
     return time.time() - t0
 
 
+def ensure_repo_link():
+    """harness/Cargo.toml reaches the repository under test through the symlink <checkout>/.repo
+    (/repo, or $KTMC_REPO for an isolated snapshot)"""
+    link = os.path.join(VERIF, ".repo")
+    try:
+        if os.path.islink(link) and os.readlink(link) == REPO:
+            return
+        if os.path.islink(link) or os.path.exists(link):
+            os.remove(link)
+        os.symlink(REPO, link)
+    except FileExistsError:
+        pass
+
+
 def build_harness():
+    ensure_repo_link()
     lock = os.path.join(HARNESS, "Cargo.lock")
     if not os.path.exists(lock):
         shutil.copy(os.path.join(REPO, "Cargo.lock"), lock)
